@@ -22,6 +22,16 @@ PROPS = {
           "4 times in a row on a healthy fake node and database. Non-trivial = the case contains a hostile entry that passes the first "
           "structural validation of its chain's parser or repeats a valid entry; distinct by hash of (start, kinds, chain summary).",
           quick=(8, 25), thorough=(16, 400)),
+ "C20": P("TestC20", "exploration",
+          "batch texts: rapid builds canonical FAT-2 batch JSON (1-4 transactions, all tickers, amounts incl. 0, 2^63-1, 2^63, 2^64-1) and applies 0-2 "
+          "grammar-level mutations (duplicate/unknown/case-changed key at any depth, whitespace, number spellings, both/neither of transfers+conversion, "
+          "second input address, bad/lower-case/double-quoted ticker, null values, trailing data, reordering, metadata, out-of-range numbers, bit flips); "
+          "oracle: accepted by pegnetd's UnmarshalJSON+ValidData+int64 bound => accepted by an independent token-level strict acceptor (key case is a labelled "
+          "don't-care) with the same decoded transactions, and re-encoding decodes to the same transactions; unmutated canonical texts must be accepted. "
+          "amounts: decimal strings (0-25 integer digits incl. values around 2^63/1e8, 2^64/1e8, 2^63, 2^64; 0-12 fraction digits; leading zeros; junk characters); "
+          "oracle: nil error => result == value*1e8 exactly (math/big), canonical in-range strings with <=8 decimals are accepted. "
+          "Non-trivial = text reaches the decoder's length accounting (accepted, or rejected-but-structurally-valid) / amount has a fraction or >=12 digits; distinct by text.",
+          quick=(4, 6000), thorough=(16, 150000), timeout=(300, 2400)),
 }
 
 ALL = ["C%02d" % i for i in range(1, 21)]
@@ -30,6 +40,9 @@ TEXT = {
  "C08": {"technique": "property-based testing (rapid, stateful chain generation with hostile entries) against the real sync loop; oracle = terminates at the tip",
          "level_text": "Exploration: each run syncs hundreds of generated chains carrying hostile entries through the unmodified DBlockSync and requires it to reach the tip; a panic, log.Fatal or a height that fails 4 times in a row is a violation with a shrunk replay chain. Liveness is decided per generated input within a budget, never for all inputs.",
          "level_note": "Trusted: fake factomd (serves well-formed dblocks/eblocks for whatever entries the case contains), Go/SQLite, grader modules. Eras: PegNet 2.0.2+ rules; legacy-era hostile batches are covered by the C16 generator. Rates >= 2^63 are a registered known finding and excluded from the search."},
+ "C20": {"technique": "property-based testing (rapid grammar mutation of batch JSON; differential against an independent strict acceptor + round trip; big-decimal oracle for amounts)",
+         "level_text": "Exploration at function level: tens of thousands (quick) to millions (thorough) of generated batch texts and amount strings per run against explicit oracles.",
+         "level_note": "Accepted means UnmarshalJSON+ValidData+int64 bound (the signature check is C05's). Key case is a don't-care (Go's decoder folds case; the statement lists duplicate/unknown keys). The empty amount string is outside the stated domain."},
 }
 
 _BUILT = set(PROPS)
